@@ -120,7 +120,7 @@ func C03(c *Ctx) {
 		"(typestate) every store of an order whose Status is a constant is one of: Raised on a fresh order; Rejected under Status==Raised and [elapsed>=DecisionTimeLimit ∧ accepts<MinAccepts] or [rejects > len(signers)-MinAccepts]; Accepted under Status==Raised ∧ accepts>=MinAccepts ∧ ¬(rejects>threshold); Completed under Status==Accepted; any other writer must copy Status from the loaded order (or be genesis import); " +
 		"(A3) in the begin blocker no path runs the minting step after the tally step (one-block delay); inside the completion loop every iteration that stores Completed also mints and dequeues the same id, and every tally outcome dequeues from the raised queue (accept also enqueues in the accepted queue) before the next iteration. " +
 		"Decides these structural necessary conditions on every path; does not decide queue/status consistency as an inductive invariant over histories."
-	r.Rules = []string{"A1.section-writers", "A2.whitelist-action", "A2.raise-guards", "A7.raise-fields", "A2.decide-guards", "A2.decide-once-loop", "A7.decision-signer-form", "A4.decide-fields", "TS.status-transition", "A3.one-block-delay", "A3.completion-pairing", "A3.tally-pairing", "A3.queue-membership", "A3.no-stale-writeback", "A3.lost-update"}
+	r.Rules = []string{"A1.section-writers", "A2.whitelist-action", "A2.raise-guards", "A7.raise-fields", "A2.decide-guards", "A2.decide-once-loop", "A7.decision-signer-form", "A4.decide-fields", "TS.status-transition", "A3.one-block-delay", "A3.completion-pairing", "A3.tally-pairing", "A3.queue-membership", "A3.no-stale-writeback", "A3.lost-update", "A3.stale-element-pointer", "A3.tally-complete"}
 	r.Trusted = []string{"bank MintCoins semantics", "params are read from the store at every use (C16)"}
 	r.NotDecided = []string{"consistency of queues and statuses over all histories (inductive)", "behaviour of uint64 subtraction now-RaiseTime when block time goes backwards"}
 
@@ -680,6 +680,9 @@ func statusTypestate(c *Ctx) {
 			ct := fieldOfStruct(st, "CompletionTime")
 			r.Require(ct != nil && isBlockTime(ct), "TS.status-transition", key+"|time", pos(c, pw.First), "CompletionTime is the block time", fmt.Sprint(ct))
 			thresholds(c, pw, status.Name, baseKey, key)
+			if status.Name == stAccepted {
+				tallyComplete(c, pw, baseKey)
+			}
 		default:
 			// status copied from somewhere: must be the loaded order's own status, or genesis
 			k, ok := allStateField(c, status, secPO, "Status")
@@ -1149,4 +1152,88 @@ func queueMembership(c *Ctx) {
 		}
 	}
 	r.Floor("entry points enqueuing purchase orders", n, 2)
+}
+
+// tallyComplete is rule A3.tally-complete: at every block each raised order is held against the thresholds. In the
+// function that tallies (the one whose loop over the raised queue reaches the store of Status=Accepted), no turn of the
+// loop goes on to the next order without either storing a new status or having found "accepts < MinAccepts" for this very
+// order: a shortcut that skips an order for any other reason (nothing new since the last tally, a cached verdict) leaves
+// it raised although the parameters in force — which governance may have changed since — would settle it.
+func tallyComplete(c *Ctx, pw poWriter, baseKey string) {
+	w, r := c.W, c.R
+	f := pw.Top
+	if f == nil || pw.First == nil {
+		return
+	}
+	hdr := ir.EnclosingLoopHeader(f, pw.First)
+	key := fn(f)
+	if c.done == nil {
+		c.done = map[string]bool{}
+	}
+	if c.done["tally-complete|"+key] {
+		return
+	}
+	c.done["tally-complete|"+key] = true
+	if hdr == nil {
+		r.Undecided("A3.tally-complete", key, pos(c, pw.First), "the tally stands in a loop over the raised queue", "the store of Status=Accepted is not inside a loop of "+key)
+		return
+	}
+	minAcc := func(e *ir.Expr) bool { return isEntParam(c, stripConvE(e), "MinAccepts") }
+	accepts := func(e *ir.Expr) bool { return isCounterOf(c, e, stAccepted, baseKey) }
+	few := func(p ir.Pred) bool {
+		ok := cmpIs(p, "<", accepts, minAcc)
+		if os.Getenv("MCDEBUG") == "tally" {
+			fmt.Fprintln(os.Stderr, "tally pred", ok, p.Pol, p.E.String()[:min(200, len(p.E.String()))])
+		}
+		return ok
+	}
+	isStore := directSites(c, func(e ir.Effect) bool { return e.Kind == "StoreWrite" && e.Section == secPO })
+	root := w.FlatRoot(f)
+	bad := ""
+	for _, be := range ir.BackEdges(f) {
+		if be[1] != hdr {
+			continue
+		}
+		latch := be[0]
+		term := latch.Instrs[len(latch.Instrs)-1]
+		for _, su := range hdr.Succs {
+			if su == hdr || !hdr.Dominates(su) || !ir.ReachesFrom(f, su, 0, term, ir.Cut{}) {
+				continue
+			}
+			from := ir.FPos{Ctx: root, In: hdr.Instrs[len(hdr.Instrs)-1]}
+			su := su
+			cut := &ir.FlatCut{Matcher: few, Depth: 2,
+				Barrier: func(_ *ir.FCtx, x ssa.Instruction) bool { return isStore(x) },
+				Edges: func(cx *ir.FCtx) map[[2]int]bool {
+					if cx != root {
+						return nil
+					}
+					out := map[[2]int]bool{}
+					for si, s2 := range hdr.Succs {
+						if s2 != su {
+							out[[2]int{hdr.Index, si}] = true
+						}
+					}
+					return out
+				}}
+			if os.Getenv("MCDEBUG") == "tally" {
+				var trail []string
+				w.FlatWalk(root, &from, cut, func(p ir.FPos) bool {
+					if p.Ctx == root {
+						if _, isIf := p.In.(*ssa.If); isIf {
+							trail = append(trail, fmt.Sprintf("%d:%s", p.In.Block().Index, p.In.Block().Comment))
+						}
+					}
+					return true
+				})
+				fmt.Fprintln(os.Stderr, "tally walk hdr", hdr.Index, hdr.Comment, "su", su.Index, "latch", latch.Index, latch.Comment, "ifs visited:", trail)
+			}
+			// (coming round to the header again: the back edge itself may be the untaken side of the last test)
+			first := hdr.Instrs[0]
+			if hit := w.FlatReaches(root, &from, cut, func(p ir.FPos) bool { return p.Ctx == root && p.In == first }); hit != nil {
+				bad = "the next order is reached from " + w.InstrPos(hdr.Instrs[0]) + " without a status being stored and without this order's accepts having been found below MinAccepts"
+			}
+		}
+	}
+	r.Require(bad == "", "A3.tally-complete", key, pos(c, pw.First), "every raised order is held against the thresholds at every block (an order stays raised only because its accepts are below MinAccepts and no reject condition holds)", bad)
 }
